@@ -229,7 +229,8 @@ def bounded(params):
         evals += 1
         for pb in res["problems"][:1]:
             failures.append({"input": {"dtype": dt_, "case": pb}, "problems": [str(pb)[:300]], "replay_kind": "c09.maplabels", "witness_class": res.get("witness_class")})
-    for res, kind in ((overlap_frame({}), "c09.overlap_frame"), (overlap_layout({}), "c09.overlap_layout")):
+    from . import c05 as _c05
+    for res, kind in ((overlap_frame({}), "c09.overlap_frame"), (overlap_layout({}), "c09.overlap_layout"), (_c05.many({}), "c05.many")):
         evals += 1
         for pb in res["problems"][:1]:
             failures.append({"input": {"case": pb}, "problems": [str(pb)[:300]], "replay_kind": kind})
